@@ -4,9 +4,10 @@ SPEC = dict(
     rule="every program / state stream of C01 (exhaustive opcode 0..255 x skip 0..24 x position {start, mid-block, last bytes of code} x "
          "operand-byte pairs; random instruction streams with random bitmasks / jump tables / entry points / undefined opcodes / open "
          "end; structured programs with loops, jump-table jumps, ecalli, halting; load/store and sbrk programs over RW / RO / inaccessible / "
-         "absent pages) plus four C02 streams (skip clamped at 24 behind terminators and ordinary instructions; entry at a counter whose "
+         "absent pages) plus five C02 streams (skip clamped at 24 behind terminators and ordinary instructions; entry at a counter whose "
          "bitmask bit is clear; ecalli of every immediate length with gas around the host-call charges; last instruction cut short so that "
-         "operands lie past the end of the code) executed in BOTH Go engines (SingleStepInvokeDecodedBlocks and SingleStepInvoke), each on its "
+         "operands lie past the end of the code; backward-branch loops, with and without an ecalli inside, whose body passes through addresses "
+         "without table entry so that they are visited repeatedly within one invocation and across host-call resumptions) executed in BOTH Go engines (SingleStepInvokeDecodedBlocks and SingleStepInvoke), each on its "
          "own copy of program, registers, gas and memory, the Psi_H loop driven by the harness with the host function Host.HostCall would pick "
          "and each engine resumed from ITS OWN returned counter after every host call. Per engine compared with the extracted Gray Paper "
          "machine (psi_h over PvmRun.run, printed twice): exit kind, fault address (as a range, like C01), returned counter, 13 registers, "
@@ -46,7 +47,7 @@ MANIFEST = dict(
          "Gray Paper machine of C01. Table soundness: every entry equals the decode of the code at its counter, a block is the slice up to the "
          "first terminator, entries exist exactly at the instruction starts, the 'no terminator' panic cannot occur. Seven _refuted theorems "
          "give one witness per behaviour of the tree before the repairs (all replayed on the Go code). That the Go engines are these models "
-         "is decided by the correspondence on every run: all C01 streams plus four C02 streams through both Go engines in lock-step over "
+         "is decided by the correspondence on every run: all C01 streams plus five C02 streams through both Go engines in lock-step over "
          "host-call boundaries, every observable compared with the extracted Gray Paper machine.",
     note="Six genuine defects found on the tree (five in the single-step engine: counter advanced on a page fault, host-call exit returns "
          "the ecalli's own counter, trap past the end not charged, taken jump to own address falls through, operands read from the raw code "
